@@ -29,7 +29,9 @@ P = {
          "job, locations name the holding buffer, flags agree with stores - preserved by EVERY applied transition with no side "
          "condition, hence in every reachable state and every micro-state under any action sequence, any fuel, any truncation setting "
          "(C03_conservation_*), with reflection between the Prop invariant WFS and the extracted boolean wfs_b; an AGV holds exactly "
-         "one job in TRANSIT and none otherwise (C03_agv_load_*, unconditional, SMP/Agv.v); a busy machine holds exactly one job, an "
+         "one job in TRANSIT and none otherwise (C03_agv_load_*, unconditional, SMP/Agv.v) and its phase agrees with its claim, route and "
+         "place - idle and broken-down AGVs are empty and stand at a place, a broken-down AGV has no claim, the WORKING phase is never "
+         "entered (C03_agv_phase_*, unconditional); a busy machine holds exactly one job, an "
          "idle one none (C03_machine_holds_one_partial, corollary of the C01 invariant with its monitored side condition). " + TIE),
  "C04": ("Env", "Theorems (Props/C04.v; SMP/Decline, Atomic): env model - a done episode refuses steps (C04_done_raises), terminated and "
          "truncated are never both set (C04_exclusive), terminated iff the middleware result has no offers and all jobs are in output "
